@@ -16,7 +16,8 @@ ObsNoStray(s) == s.stray = EmptyMap
 FailedInvs(s) == (IF ObsSupply(s) THEN {} ELSE {"SupplyMatchesBalances"}) \cup (IF ObsNoStray(s) THEN {} ELSE {"NoStray"})
 (* transition facts on OBSERVED pre/post states *)
 FailedSteps(pre, cur) ==
-  (IF cur.state.seqL1 \in {pre.seqL1, pre.seqL1 + 1} THEN {} ELSE {"SeqL1Step"})
+  (LET deps == IF cur.ok /\ cur.e.type = "FinalizeTokenDeposit" /\ cur.resp.result = "SUCCESS" THEN cur.resp.depEvs ELSE << >>
+   IN IF cur.state.seqL1 = pre.seqL1 + Len(deps) /\ (\A q \in pre.seqL1..(cur.state.seqL1 - 1) : Cardinality({j \in 1..Len(deps) : deps[j].seq = q}) = 1) THEN {} ELSE {"SeqL1Step"})
   \cup (LET ann == IF cur.ok /\ cur.e.type = "InitiateTokenWithdrawal" THEN << cur.resp.ev >>
                     ELSE IF cur.ok /\ cur.e.type = "FinalizeTokenDeposit" /\ cur.resp.result = "SUCCESS"
                          THEN cur.resp.hookWds \o (IF cur.resp.wd.some THEN << cur.resp.wd >> ELSE << >>)
